@@ -323,11 +323,15 @@ class Verdict:
         self.violations = []   # (summary, replay obj)
         self.known = {}        # finding id -> count
         self.findings = [f for f in load_findings() if f["property"] == pid and f.get("status") == "open"]
-        d = os.path.join(WORK, "replay")     # replay files of earlier runs of this check are stale
+        d = os.path.join(WORK, "replay")     # replay files of earlier runs of this check are stale (another run may be in progress: keep recent ones)
         if os.path.isdir(d):
             for fn in os.listdir(d):
-                if fn.startswith(pid + "-"):
-                    os.remove(os.path.join(d, fn))
+                fp = os.path.join(d, fn)
+                try:
+                    if fn.startswith(pid + "-") and time.time() - os.path.getmtime(fp) > 3 * 3600:
+                        os.remove(fp)
+                except OSError:
+                    pass
 
     def violation(self, summary, replay_obj):
         self.violations.append((summary, replay_obj))
